@@ -755,25 +755,131 @@ def _option_pass(d, f, fn_by_path, children, force, summary=None):
 FN_TRAITS = {"std::ops::Fn": "call", "std::ops::FnMut": "call_mut", "std::ops::FnOnce": "call_once"}
 
 
-def _closure_source(d, f, l, depth=0):
-    """The local holding the closure aggregate that local `l` is (a copy / move of, or a reference to),
-    or None.  Only single-definition temporaries are followed."""
-    if l is None or depth > 6:
-        return None
-    if d["types"][f["locals"][l][0]].get("k") == "closure":
-        return l
+def _resolve_place(d, f, l, projs, depth=0):
+    """Follow `[l, projs]` through single-definition temporaries: references, moves / copies (with
+    projections) and closure aggregates, like Sym._static_target.  Returns (local, projs)."""
+    if depth > 10 or l is None:
+        return l, projs
+    if 1 <= l <= f["argc"]:
+        return l, projs
     defs = [st for b in f["blocks"] for st in b["st"] if st["k"] == "A" and st["p"][0] == l]
     calls = [b for b in f["blocks"] if b["term"]["k"] == "call" and b["term"]["dest"][0] == l]
     if len(defs) != 1 or calls or defs[0]["p"][1]:
-        return None
+        return l, projs
     r = defs[0]["r"]
-    if r["k"] == "use":
+    if r["k"] == "ref" and "*" not in r["p"][1]:
+        if projs and projs[0] == "*":
+            return _resolve_place(d, f, r["p"][0], list(r["p"][1]) + list(projs[1:]), depth + 1)
+        if not projs:
+            return _resolve_place(d, f, r["p"][0], list(r["p"][1]), depth + 1) if not r["p"][1] else (l, projs)
+        return l, projs
+    if r["k"] in ("use", "cast"):
         p = r["o"].get("m") or r["o"].get("c")
-        if p is not None and (not p[1] or p[1] == ["*"]):
-            return _closure_source(d, f, p[0], depth + 1)
-    if r["k"] == "ref" and (not r["p"][1] or r["p"][1] == ["*"]):
-        return _closure_source(d, f, r["p"][0], depth + 1)
-    return None
+        if p is not None:
+            return _resolve_place(d, f, p[0], list(p[1]) + list(projs), depth + 1)
+        return l, projs
+    if r["k"] == "agg" and r.get("agg") == "closure" and projs and isinstance(projs[0], list) and projs[0][0] == "f":
+        idx = projs[0][1]
+        if isinstance(idx, int) and idx < len(r["fields"]):
+            p = r["fields"][idx].get("m") or r["fields"][idx].get("c")
+            if p is not None:
+                return _resolve_place(d, f, p[0], list(p[1]) + list(projs[1:]), depth + 1)
+    return l, projs
+
+
+def _closure_source(d, f, l, depth=0):
+    """The local holding the closure aggregate that local `l` is (a copy / move of, a reference to, or a
+    captured reference to), or None."""
+    if l is None:
+        return None
+    tl, projs = _resolve_place(d, f, l, [])
+    for _ in range(4):
+        if d["types"][f["locals"][tl][0]].get("k") == "closure" and all(p == "*" for p in projs):
+            return tl
+        if projs and projs[0] == "*":
+            tl, projs = _resolve_place(d, f, tl, projs)
+            if projs and projs[0] == "*":
+                # a reference held in a variable that is itself not followed further
+                ty = d["types"][f["locals"][tl][0]]
+                inner = ty.get("inner")
+                if isinstance(inner, int) and d["types"][inner].get("k") == "closure":
+                    return None
+                break
+        else:
+            break
+    return tl if d["types"][f["locals"][tl][0]].get("k") == "closure" and not [p for p in projs if p != "*"] else None
+
+
+ENTRY_MAPS = ("std::collections::BTreeMap", "std::collections::HashMap")
+
+
+def desugar_entry_calls(d, f, fn_by_path):
+    """`*map.entry(k).or_insert_with(|| v)` in code that came from an inlined helper is the memo idiom
+    `match map.get(&k) { Some(r) => r, None => { let v = ..; map.insert(k, v); &v } }`: written out that way
+    (closure inlined), so that rules reading look-ups and insertions of a map see them."""
+    out = []
+    for _ in range(8):
+        site = None
+        for bi, b in enumerate(f["blocks"]):
+            t = b["term"]
+            if b["cleanup"] or not b.get("inl") or t["k"] != "call" or "f" not in t or b.get("entry_tried"):
+                continue
+            if t["f"].get("name") != "entry" or t["f"].get("adt") not in ENTRY_MAPS or len(t["args"]) != 2 or t["dest"][1] or t.get("t") is None:
+                continue
+            b2 = f["blocks"][t["t"]]
+            t2 = b2["term"]
+            if t2["k"] != "call" or "f" not in t2 or t2["f"].get("name") != "or_insert_with" or len(t2["args"]) != 2 or _plain_local(t2["args"][0]) != t["dest"][0]:
+                continue
+            c, cl_local = _closure_of(d, fn_by_path, f, t2["args"][1])
+            if c is None or c["argc"] != 1:
+                continue
+            site = (bi, t["t"], c)
+            break
+        if site is None or len(f["blocks"]) > MAX_BLOCKS:
+            break
+        bi, b2i, c = site
+        b, b2 = f["blocks"][bi], f["blocks"][b2i]
+        t, t2 = b["term"], b2["term"]
+        b["entry_tried"] = True
+        cx = _Ctx(d, f)
+        line = t.get("s")
+        map_op, key_op = t["args"]
+        kl = _plain_local(key_op)
+        if kl is None:
+            continue
+        G, D, V, KR, INS = cx.local(), cx.local(), cx.local(name=None), cx.local(), cx.local()
+        SW = cx.block()
+        UNREACH = cx.block([], {"k": "unreachable"})
+        BS = cx.block()
+        BF = cx.block()
+        BI = cx.block()
+        pending = []
+        BN = _closure_call_block(cx, fn_by_path, t2["args"][1], [], V, BI, line, pending)
+        # the statements of the or_insert_with block (they build the closure) run before the look-up
+        b["st"] = b["st"] + [st for st in b2["st"] if st["k"] == "A"] + [{"k": "A", "p": [KR, []], "r": {"k": "ref", "mut": False, "p": [kl, []]}, "s": line}]
+        b2["st"], b2["term"] = [], {"k": "unreachable"}
+        callee_get = {"path": t["f"]["path"].rsplit("::", 1)[0] + "::get", "name": "get", "local": False, "krate": t["f"].get("krate"), "self_ty": t["f"].get("self_ty"), "adt": t["f"].get("adt"), "substs": []}
+        callee_ins = dict(callee_get, path=t["f"]["path"].rsplit("::", 1)[0] + "::insert", name="insert")
+        b["term"] = {"k": "call", "f": callee_get, "args": [{"c": _plain_place(map_op)}, {"m": [KR, []]}], "dest": [G, []], "t": SW, "u": t.get("u"), "s": line, "fs": line}
+        f["blocks"][SW]["st"] = [{"k": "A", "p": [D, []], "r": {"k": "disc", "p": [G, []], "adt": "std::option::Option"}, "s": line}]
+        f["blocks"][SW]["term"] = {"k": "switch", "d": {"m": [D, []]}, "vals": [0, 1], "tgts": [BN, BS], "otherwise": UNREACH, "s": line}
+        f["blocks"][BS]["st"] = [{"k": "A", "p": t2["dest"], "r": {"k": "use", "o": {"c": [G, [["d", "Some", 1], ["f", 0, "0", "std::option::Option", "Some"]]]}}, "s": line}]
+        f["blocks"][BS]["term"] = {"k": "goto", "t": t2.get("t")}
+        f["blocks"][BI]["term"] = {"k": "call", "f": callee_ins, "args": [{"c": _plain_place(map_op)}, {"c": [kl, []]}, {"c": [V, []]}], "dest": [INS, []], "t": BF, "u": t2.get("u"), "s": line, "fs": line}
+        f["blocks"][BF]["st"] = [{"k": "A", "p": t2["dest"], "r": {"k": "ref", "mut": True, "p": [V, []]}, "s": line}]
+        f["blocks"][BF]["term"] = {"k": "goto", "t": t2.get("t")}
+        for x in (SW, BS, BF, BI, BN):
+            f["blocks"][x]["inl"] = b.get("inl")
+        for pb, pc in pending:
+            inline_call(f, pb, copy.deepcopy(pc), d["types"])
+            out.append(pc["path"])
+    return out
+
+
+def _plain_place(op):
+    p = op.get("m") or op.get("c")
+    return [p[0], list(p[1])]
+
 
 
 def direct_closure_calls(d, f, fn_by_path):
@@ -839,7 +945,7 @@ def apply(d):
     for f in order:
         if f.get("inlined") and f.get("local", True) and not f.get("derived"):
             try:
-                inl = direct_closure_calls(d, f, fn_by_path)
+                inl = desugar_entry_calls(d, f, fn_by_path) + direct_closure_calls(d, f, fn_by_path)
             except Exception as e:
                 summary["skipped"].append("%s: %s" % (f["path"], e))
                 continue
